@@ -11,7 +11,7 @@ R-CLOSE  (typestate) the native netCDF close is only reached under an
 """
 import ast
 
-from ..engine import AnalysisError, dotted, iter_stmts, norm, walk_expr, parent_chain
+from ..engine import AnalysisError, dotted, iter_stmts, norm, walk_expr, parent_chain, kw
 from ..prov import Prov, is_input, is_maybe_input
 from ..report import Finding
 
@@ -302,6 +302,49 @@ def check_close_local(ctx, rule='R-CLOSELOCAL'):
     ctx.floor('close / finaliser methods examined', n, 4)
 
 
+def check_values_views(ctx, rule='R-ALIAS'):
+    """functional forms of core/_functions.py: a variable of the result is created from `values=<expr>`; the variable class only takes a
+    view of what it is given, so <expr> must not be a chain of view operations (subscript, reshape, swapaxes, T, view, ravel) on a
+    variable of the input file"""
+    m = ctx.src.mod('core/_functions.py')
+    VIEWISH = ('reshape', 'swapaxes', 'view', 'ravel', 'squeeze', 'transpose')
+    n = 0
+    for q in ('splitdim',):
+        fn = m.functions.get(q)
+        if fn is None:
+            continue
+        fparam = fn.args.args[0].arg if fn.args.args else 'inf'
+        invars = set()
+        for st in ast.walk(fn):
+            if isinstance(st, ast.For) and ('%s.variables' % fparam) in norm(st.iter) and isinstance(st.target, ast.Tuple) and len(st.target.elts) == 2 and isinstance(st.target.elts[1], ast.Name):
+                invars.add(st.target.elts[1].id)
+        for c in walk_expr(fn):
+            if isinstance(c, ast.Call) and isinstance(c.func, ast.Attribute) and c.func.attr == 'createVariable' and kw(c, 'values') is not None:
+                n += 1
+                e = kw(c, 'values')
+                fresh = False
+                while True:
+                    if isinstance(e, ast.Subscript):
+                        e = e.value
+                    elif isinstance(e, ast.Attribute) and e.attr == 'T':
+                        e = e.value
+                    elif isinstance(e, ast.Call) and isinstance(e.func, ast.Attribute) and e.func.attr in VIEWISH:
+                        e = e.func.value
+                    else:
+                        break
+                if isinstance(e, ast.Name) and e.id in invars:
+                    ctx.violation(Finding(rule, 'core/_functions.py', q, api_stmt(c), 'the result variable is created with values=%s, a chain of view operations on a variable of the input: the variable class '
+                                          'takes a view of its values, so data and mask of the result are those of the input and a later write to one changes the other' % norm(kw(c, 'values'))[:50]))
+                else:
+                    ctx.ok(rule, '%s:values' % q, 'src/PseudoNetCDF/core/_functions.py %s' % q, 'values= is not a view chain on an input variable')
+    return n
+
+
+def api_stmt(n):
+    from .. import api
+    return api.stmt_of(n)
+
+
 def _dominated_by_isopen(meth, call):
     """path-wise (paths.py): on every path of the method that reaches the native close, the last decision taken before it on
     self.isopen() (directly or through a local that holds its result) was 'open'; the spelling - enclosing if, early return for
@@ -352,6 +395,7 @@ def run(ctx):
     ctx.floor('functions under R-QMUT', n, 150)
     check_close(ctx)
     check_close_local(ctx)
+    check_values_views(ctx)
     ctx.assumptions += [
         'numpy view/copy fact table in pncstatic/prov.py (basic indexing, .T, .view, swapaxes, asarray are views; '
         'arithmetic, copy, astype, advanced indexing, concatenate are fresh)',
